@@ -173,13 +173,20 @@ def c20_3(ctx, ss):
         fl = flow_of(ss, ra)
         k = ckey(ra, None, "pars-consts")
         ok = False
+        got = {}          # attribute -> index of the read's result it is assigned from (on every path)
         for st in pf.iter_stmts(ra.node.body):
-            if isinstance(st, ast.Assign) and isinstance(st.targets[0], ast.Tuple):
-                tg = [txt(e) for e in st.targets[0].elts]
-                own = {f"{cname}.pars", f"{cname}.consts"} <= set(tg) or {"cls.pars", "cls.consts"} <= set(tg)
-                if own and txt(st.value).startswith("super().read_ampgen(") and fl.cfg.must_pass({fl.cfg.node_of(st)}):
-                    # positions: (lines, pars, consts, states)
-                    ok = len(tg) == 4 and tg[1].endswith(".pars") and tg[2].endswith(".consts")
+            if not isinstance(st, ast.Assign) or not fl.cfg.must_pass({fl.cfg.node_of(st)}):
+                continue
+            if isinstance(st.targets[0], ast.Tuple) and txt(st.value).startswith("super().read_ampgen("):
+                # positions: (lines, pars, consts, states)
+                for i_, e in enumerate(st.targets[0].elts):
+                    if txt(e) in (f"{cname}.pars", f"{cname}.consts", "cls.pars", "cls.consts"):
+                        got[e.attr] = (i_, txt(e.value))
+            elif isinstance(st.targets[0], ast.Attribute) and txt(st.targets[0]) in (f"{cname}.pars", f"{cname}.consts", "cls.pars", "cls.consts"):
+                v = fl.expand(st.value)        # a local unpacked from the read: super().read_ampgen(…)[i]
+                if isinstance(v, ast.Subscript) and txt(v.value).startswith("super().read_ampgen(") and isinstance(v.slice, ast.Constant):
+                    got[st.targets[0].attr] = (v.slice.value, txt(st.targets[0].value))
+        ok = got.get("pars", (None,))[0] == 1 and got.get("consts", (None,))[0] == 2 and got["pars"][1] == got["consts"][1]
         (ctx.holds if ok else ctx.violation)("C20.3", k, where(ra, ra.node),
                                               f"{cname}.read_ampgen assigns its own pars and consts from every read (2nd and 3rd result)" if ok
                                               else f"{cname}.read_ampgen does not unconditionally assign {cname}.pars / {cname}.consts from the read")
